@@ -249,13 +249,16 @@ func derivesFromIter(v ssa.Value, isIterVal func(ssa.Value) bool, seen map[ssa.V
 // edge of `iterationKey == constant`.
 func (oc *orderCheck) guardedByKeyConst(l *Loop, b *ssa.BasicBlock, isIterVal func(ssa.Value) bool) bool {
 	for blk := range l.Blocks {
-		cond, t, _, ok := branchEdges(blk)
+		cond, t, fEdge, ok := branchEdges(blk)
 		if !ok {
 			continue
 		}
 		bo, ok := cond.(*ssa.BinOp)
-		if !ok || bo.Op != token.EQL {
+		if !ok || (bo.Op != token.EQL && bo.Op != token.NEQ) {
 			continue
+		}
+		if bo.Op == token.NEQ {
+			t = fEdge // key != const: the false edge is where the key is known
 		}
 		var k, c ssa.Value = bo.X, bo.Y
 		if _, isC := k.(*ssa.Const); isC {
